@@ -57,3 +57,54 @@ impl PolicySet {
             r is Err ==> final(self).links() == old(self).links(),
     { unimplemented!() }
 }
+// ---- for Response::reauthorize: the checks it runs (contracts proved in units reqval, conformance, tpe_consist) and the authorizer (units authz) ----
+#[verifier::external_body] pub struct Request { _p: u8 }
+#[verifier::external_body] pub struct Entities { _p: u8 }
+#[verifier::external_body] pub struct Entity { _p: u8 }
+#[verifier::external_body] pub struct Extensions<'a> { _p: &'a u8 }
+#[verifier::external_body] pub struct AuthzResponse { _p: u8 }
+#[verifier::external_body] pub struct ReauthorizationError { _p: u8 }
+#[verifier::external_body] pub struct RequestValidationError { _p: u8 }
+#[verifier::external_body] pub struct ConfErr { _p: u8 }
+#[verifier::external_body] pub struct EntitiesConsistencyError { _p: u8 }
+#[verifier::external_body] pub struct RequestConsistencyError { _p: u8 }
+impl Clone for Request { #[verifier::external_body] fn clone(&self) -> (r: Self) ensures r == *self { unimplemented!() } }
+impl<'a> Extensions<'a> { #[verifier::external_body] pub fn all_available() -> (r: &'static Extensions<'static>) { unimplemented!() } }
+pub uninterp spec fn sp_request_valid(s: &ValidatorSchema, r: Request) -> bool;
+pub uninterp spec fn sp_entity_conforms(s: &ValidatorSchema, e: Entity) -> bool;
+pub uninterp spec fn sp_entities_consistent(p: &PartialEntities, c: &Entities) -> bool;
+pub uninterp spec fn sp_request_consistent(p: &PartialRequest, c: Request) -> bool;
+pub uninterp spec fn sp_is_authorized(q: Request, ps: PolicySet, es: &Entities) -> AuthzResponse;
+impl ValidatorSchema {
+    #[verifier::external_body] pub fn validate_request(&self, request: &Request, e: &Extensions<'_>) -> (r: std::result::Result<(), RequestValidationError>) ensures r is Ok <==> sp_request_valid(self, *request) { unimplemented!() }
+}
+#[verifier::external_body] pub struct CoreSchema<'a> { _p: &'a u8 }
+impl<'a> CoreSchema<'a> {
+    pub uninterp spec fn spec_schema(&self) -> &'a ValidatorSchema;
+    #[verifier::external_body] pub fn new(s: &'a ValidatorSchema) -> (r: Self) ensures r.spec_schema() == s { unimplemented!() }
+}
+#[verifier::external_body] pub struct EntitySchemaConformanceChecker<'a> { _p: &'a u8 }
+impl<'a> EntitySchemaConformanceChecker<'a> {
+    pub uninterp spec fn spec_schema(&self) -> &'a ValidatorSchema;
+    #[verifier::external_body] pub fn new(s: &'a CoreSchema<'a>, e: &Extensions<'_>) -> (r: Self) ensures r.spec_schema() == s.spec_schema() { unimplemented!() }
+    #[verifier::external_body] pub fn validate_entity(&self, e: &Entity) -> (r: std::result::Result<(), ConfErr>) ensures r is Ok <==> sp_entity_conforms(self.spec_schema(), *e) { unimplemented!() }
+}
+impl Entities {
+    pub uninterp spec fn spec_all(&self) -> Seq<Entity>;
+    #[verifier::external_body] pub fn iter(&self) -> (r: VxIter<&Entity>) ensures r.items().len() == self.spec_all().len(), forall|i: int| 0 <= i < r.items().len() ==> *(#[trigger] r.items()[i]) == self.spec_all()[i] { unimplemented!() }
+}
+impl PartialEntities { #[verifier::external_body] pub fn check_consistency(&self, c: &Entities) -> (r: std::result::Result<(), EntitiesConsistencyError>) ensures r is Ok <==> sp_entities_consistent(self, c) { unimplemented!() } }
+impl PartialRequest { #[verifier::external_body] pub fn check_consistency(&self, c: &Request) -> (r: std::result::Result<(), RequestConsistencyError>) ensures r is Ok <==> sp_request_consistent(self, *c) { unimplemented!() } }
+#[verifier::external_body] pub struct Authorizer { _p: u8 }
+impl Authorizer {
+    #[verifier::external_body] pub fn new() -> (r: Self) { unimplemented!() }
+    #[verifier::external_body] pub fn is_authorized(&self, q: Request, ps: &PolicySet, es: &Entities) -> (r: AuthzResponse) ensures r == sp_is_authorized(q, *ps, es) { unimplemented!() }
+}
+impl vstd::std_specs::convert::FromSpecImpl<RequestValidationError> for ReauthorizationError { open spec fn obeys_from_spec() -> bool { false } uninterp spec fn from_spec(v: RequestValidationError) -> ReauthorizationError; }
+impl From<RequestValidationError> for ReauthorizationError { #[verifier::external_body] fn from(v: RequestValidationError) -> (r: ReauthorizationError) { unimplemented!() } }
+impl vstd::std_specs::convert::FromSpecImpl<ConfErr> for ReauthorizationError { open spec fn obeys_from_spec() -> bool { false } uninterp spec fn from_spec(v: ConfErr) -> ReauthorizationError; }
+impl From<ConfErr> for ReauthorizationError { #[verifier::external_body] fn from(v: ConfErr) -> (r: ReauthorizationError) { unimplemented!() } }
+impl vstd::std_specs::convert::FromSpecImpl<EntitiesConsistencyError> for ReauthorizationError { open spec fn obeys_from_spec() -> bool { false } uninterp spec fn from_spec(v: EntitiesConsistencyError) -> ReauthorizationError; }
+impl From<EntitiesConsistencyError> for ReauthorizationError { #[verifier::external_body] fn from(v: EntitiesConsistencyError) -> (r: ReauthorizationError) { unimplemented!() } }
+impl vstd::std_specs::convert::FromSpecImpl<RequestConsistencyError> for ReauthorizationError { open spec fn obeys_from_spec() -> bool { false } uninterp spec fn from_spec(v: RequestConsistencyError) -> ReauthorizationError; }
+impl From<RequestConsistencyError> for ReauthorizationError { #[verifier::external_body] fn from(v: RequestConsistencyError) -> (r: ReauthorizationError) { unimplemented!() } }
